@@ -201,6 +201,8 @@ def c05_rules():
         lambda prog, tier: normlen.run(prog),
         lambda prog, tier: inval.run_pricedim(prog, shared_eff(prog)),
         lambda prog, tier: inval.run_failpath(prog, shared_eff(prog)),
+        lambda prog, tier: inval.run_normstale(prog, shared_eff(prog)),
+        lambda prog, tier: norms.run_handover(prog),
         lambda prog, tier: vtypezero.run(prog),
         lambda prog, tier: escape.run_extcopy(prog),
     ]
@@ -557,7 +559,7 @@ PROPS = {
                   lambda prog, tier: appendinit.run(prog), lambda prog, tier: appendinit.run_repack(prog), lambda prog, tier: appendinit.run_remap(prog, shared_eff(prog)),
                   lambda prog, tier: counter.run(prog),
                   lambda prog, tier: useb4check.run(prog),
-                  lambda prog, tier: norms.run(prog),
+                  lambda prog, tier: norms.run(prog), lambda prog, tier: norms.run_handover(prog), lambda prog, tier: inval.run_normstale(prog, shared_eff(prog)),
                   lambda prog, tier: opencheck.run(prog),
                   lambda prog, tier: shell.run(prog, shared_eff(prog)),
                   lambda prog, tier: ndet.run(prog)],
@@ -680,7 +682,10 @@ _ADD = {
                            "(mutators computed from effect summaries); (R-NORMLEN) every relative change of a basis record's row / structural count is "
                            "accompanied on every path by code that deals with the corresponding norm array; (R-PRICEDIM) a public function that may change "
                            "the row / column count resets factorok or releases the devex data of the pricing record on every success path; (R-INVALPART) "
-                           "a public caller of a batch routine that can fail half-way drops the cached solution on the failing paths too."},
+                           "a public caller of a batch routine that can fail half-way drops the cached solution on the failing paths too (a batch rejected as a "
+                           "whole - count unchanged - leaves it alone); (R-NORMSTALE) a public function that changes entries of the matrix without changing "
+                           "a dimension releases both edge-norm arrays kept with p->basis on every success path; (R-FOREIGNNORMS) a basis record that moves "
+                           "from one problem object to another (the scaled pre-solve copy) leaves its edge norms behind."},
     "C07": {"technique": "; computed simplex-state fields of lpinfo + unguarded-read summaries + dominance of the API hand-over by the factorok test; "
                          "alphabet discovery + dominating-validator check for caller-supplied selector letters",
             "explanation": " (R-LPSTATE) the index-taking calls that work on the simplex data of the problem (tableau rows, pivot-in lists, basis "
